@@ -88,11 +88,24 @@ End Sort.
 Definition shuffle_spec {G} (shuffle_swaps : G -> Z -> list (Z * Z)) : Prop :=
   forall g n i j, In (i, j) (shuffle_swaps g n) -> (0 <= i < n)%Z /\ (0 <= j < n)%Z.
 
-(* An executable instance: the generator is the list of pairs it will ask
-   for (the correspondence harness records them from the real rand.Shuffle);
-   out-of-range pairs are dropped. *)
-Definition list_shuffle_swaps (g : list (Z * Z)) (n : Z) : list (Z * Z) :=
-  filter (fun ij => (0 <=? fst ij)%Z && (fst ij <? n)%Z && (0 <=? snd ij)%Z && (snd ij <? n)%Z) g.
+(* The generator of the correspondence check: the list of pairs it will ask
+   for, as recorded from a real rand.Shuffle. Nothing is filtered: a pair
+   outside the slice makes the swap panic (index out of range), as in Go. This
+   instance does not meet [shuffle_spec] for arbitrary lists; the permutation
+   theorem for it assumes the recorded pairs are in range
+   (SortProofs.recorded_swaps_perm). *)
+Definition list_shuffle_swaps (g : list (Z * Z)) (n : Z) : list (Z * Z) := g.
+
+(* An instance that does meet [shuffle_spec], showing the contract
+   satisfiable: Fisher-Yates driven by a stream of numbers,
+   for i := n-1; i > 0; i-- { j := next() mod (i+1); swap(i, j) } *)
+Fixpoint fisher_yates_from (i : nat) (g : list Z) : list (Z * Z) :=
+  match i with
+  | O => []
+  | S i' => (Z.of_nat i, (hd 0%Z g) mod (Z.of_nat i + 1))%Z :: fisher_yates_from i' (tl g)
+  end.
+Definition fisher_yates_swaps (g : list Z) (n : Z) : list (Z * Z) :=
+  fisher_yates_from (Z.to_nat n - 1) g.
 
 (* first position of v in l (statement of BinarySearch on a present value) *)
 Definition first_occurrence {T} (l : list T) (v : T) (r : nat) : Prop :=
